@@ -32,7 +32,7 @@ META = {
 PROFILE = {"n_states": (2, 5), "n_events": (2, 4), "extra_transitions": (1, 6), "p_multi_event": 0.3,
            "p_guard": 0.3, "p_validator": 0.05, "p_conv": 0.15, "p_inline": 0.2, "p_deco": 0.08,
            "providers": ["sm", "model", "l0"], "p_any": 0.3}
-STYLES = ("send", "method", "events_item", "allowed_item", "bound")
+STYLES = ("send", "method", "events_item", "allowed_item", "bound", "send_item", "send_foreign_item")
 _django = [False]
 
 
